@@ -70,9 +70,10 @@ WLr == /\ More /\ Ev.op = "w_lr" /\ phase = "write" /\ cur.off = 0 /\ cur.k <= L
        /\ UNCHANGED <<phase, cur, pos, starts, npr, prevM, a>>
 WPr == /\ More /\ Ev.op = "w_pr" /\ phase = "write"
        /\ Ev.rn = Cfg.rn /\ Ev.fn = Cfg.fn /\ Ev.ck = Cfg.ck
-       \* trailer contents: physical records are numbered 0, 1, 2, ... through the file; the file number is the configured one
+       \* trailer contents: physical records are numbered consecutively through the file (LIS-79 does not say from 0 or from 1:
+       \* Cfg.rnbase is the number of the first one as written); the file number is the configured one
        \* (the checksum value is not judged: its definition could not be checked against the standard offline)
-       /\ (Ev.rn = 1 => Ev.rnval = npr % 65536) /\ (Ev.fn = 1 => Ev.fnval = Cfg.fnval)
+       /\ (Ev.rn = 1 => Cfg.rnbase \in {0, 1} /\ Ev.rnval = (npr + Cfg.rnbase) % 65536) /\ (Ev.fn = 1 => Ev.fnval = Cfg.fnval)
        /\ Ev.prlen = PrLen(Ev) /\ Ev.prlen <= Cfg.maxpr
        /\ Ev.succ = (Ev.n < Lens[cur.k] - cur.off) /\ Ev.pred = (cur.off > 0)
        /\ Ev.hdrpos = pos + TifLen
